@@ -148,7 +148,8 @@ def evaluate(d, case, events=None, close=False, timeout=300, tamper=None):
         return "watchdog", {"stage": "online"}
     on_acts, on_fin, done = parse_online(on.out, np_)
     if on.rc != 0 or len(done) != np_ or len(on_fin) != np_:
-        return "online-fail", {"rc": on.rc, "err": (on.err or "")[-600:], "out": on.out[-300:]}
+        crit = next((l for l in (on.err or "").splitlines() if "CRITICAL" in l or "xception" in l), "")
+        return "online-fail", {"rc": on.rc, "err": crit + "\n" + (on.err or "")[-600:], "out": on.out[-300:]}
     if tamper:
         tamper("trace", d)
     rp = run_replay(d, case, timeout)
